@@ -372,6 +372,19 @@ type X2 struct {
 	Str string  `serix:",lenPrefix=uint32,minLen=1,maxLen=9"`
 }
 
+// XOpt: every field is optional - on the wire an absent field still costs its 4-byte zero length, so an element is
+// never zero bytes wide (a decoder that lets an absent field decode from NO bytes makes it zero-width).
+type XOpt struct {
+	Ext  *XInner `serix:",optional"`
+	More *XInner `serix:",optional"`
+}
+
+type X3 struct {
+	Version uint8  `serix:""`
+	Entries []XOpt `serix:",lenPrefix=uint32"`
+	Tail    *XOpt  `serix:",optional"`
+}
+
 var xAPI = func() *serix.API {
 	api := serix.NewAPI()
 	must(api.RegisterTypeSettings(Circle{}, serix.TypeSettings{}.WithObjectType(uint8(1))))
@@ -388,6 +401,8 @@ func xFresh(name string) any {
 		return &X1{}
 	case "X2":
 		return &X2{}
+	case "X3":
+		return &X3{}
 	}
 	panic("unknown serix target " + name)
 }
@@ -417,6 +432,22 @@ func xSeed(name string, rng *hx.Rng) []byte {
 		x := &X2{Sh: rshape(rng), BB: rbytes(rng, 0, 8), Str: rstr(rng, 1, 9)}
 		for i := rng.Range(0, 3); i > 0; i-- {
 			x.Shs = append(x.Shs, rshape(rng))
+		}
+		v = x
+	case "X3":
+		x := &X3{Version: uint8(rng.U64())}
+		for i := rng.Range(0, 4); i > 0; i-- {
+			o := XOpt{}
+			if rng.Bool() {
+				o.Ext = &XInner{K: uint8(rng.U64()), V: rbytes(rng, 0, 3)}
+			}
+			if rng.Chance(1, 3) {
+				o.More = &XInner{K: 1}
+			}
+			x.Entries = append(x.Entries, o)
+		}
+		if rng.Bool() {
+			x.Tail = &XOpt{}
 		}
 		v = x
 	}
@@ -1024,6 +1055,44 @@ func randChunks(rng *hx.Rng, n int) string {
 	}
 }
 
+// exhaustedLines: see (3b) in main.
+func exhaustedLines() []string {
+	var out []string
+	le32 := func(v uint32) []byte { return []byte{byte(v), byte(v >> 8), byte(v >> 16), byte(v >> 24)} }
+	// leaf -> one complete element of it
+	items := [][2]string{
+		{"n 1", "07"}, {"n 2", "0708"}, {"n 4", "01020304"}, {"n 8", "0102030405060708"}, {"b", "01"}, {"y", "09"},
+		{"u", strings.Repeat("11", 32)}, {"t", "0100000000000000"}, {"f 3", "010203"}, {"i 2", "0102"}, {"v u8 0 0", "00"}, {"s u8 0 0", "00"},
+		{"v u16 0 0", "0000"}, {"s u32 0 0", "00000000"}, {"k 1", "00"}, {"c d1 1", "01"}, {"c d4 1", "01000000"}, {"l", "00000000"}, {"l l", "0000000000000000"},
+		{"p [ ( 3 c d4 3 n 1 ) ]", "00000000"}, {"q u8 0 0 0 0 ( n 1 )", "00"}, {"q u32 0 0 0 0 ( l )", "00000000"},
+		{"o d1 [ ( 1 c d1 1 ) ]", "01"}, {"r u8 d1 0 0 0 0 - [ ( 1 c d1 1 n 1 ) ]", "00"}, {"g d1 y", "05"}, {"R n 1", "05"}, {"W 1 0 l", "00000000"},
+	}
+	for _, it := range items {
+		for _, count := range []uint32{1 << 16, 1 << 20} {
+			for _, k := range []int{0, 1, 3} {
+				for _, val := range []string{"0", "1"} {
+					if count == 1<<20 && (k == 1 || val == "1") {
+						continue
+					}
+					data := hx.Hex(le32(count)) + strings.Repeat(it[1], k)
+					out = append(out, fmt.Sprintf("d %s q u32 %s 0 0 0 ( %s )", data, val, it[0]))
+				}
+			}
+		}
+	}
+	// serix: X3 = version byte, uint32 count, elements of two optional fields each (absent = 00000000 each)
+	for _, count := range []uint32{1 << 12, 1 << 16, 1 << 20} {
+		for _, k := range []int{0, 1, 3} {
+			for _, val := range []int{0, 1} {
+				data := "2a" + hx.Hex(le32(count)) + strings.Repeat("0000000000000000", k)
+				out = append(out, fmt.Sprintf("x X3 %d %s", val, data))
+			}
+		}
+	}
+
+	return out
+}
+
 // readerTok is the reader of an "sr" request: a chunk list, now and then a reader that returns io.EOF together with
 // its last bytes ("!") or that breaks with another error after K bytes ("@K").
 func readerTok(rng *hx.Rng, n int) string {
@@ -1539,10 +1608,16 @@ func main() {
 	nX := 2500 * scale
 	for i := 0; i < nX; i++ {
 		rng, _ := r.Rng.Fork()
-		name := hx.Pick(rng, []string{"X1", "X1", "X2"})
+		name := hx.Pick(rng, []string{"X1", "X1", "X2", "X3"})
 		valid := xSeed(name, rng)
 		data, mut := mutate(rng, valid, xSeed(name, rng), nil)
 		b.emit(fmt.Sprintf("x %s %d %s", name, rng.Intn(2), hx.Hex(data)), mut)
+	}
+	// (3b) input that ENDS behind a count prefix (or behind a few complete elements) while the count denotes many more:
+	// what bounds the element loop is that an element can not be decoded from an exhausted input - every primitive
+	// on its own as the element of a sequence, and slices of all-optional structs under serix.Decode
+	for _, l := range exhaustedLines() {
+		b.emit(l, "exhausted")
 	}
 	// zero-width element / key / value types, every prefix width, every hostile count (each tier in full)
 	for _, t := range zTargets {
